@@ -44,11 +44,12 @@ theorem on_path_of_contains (ts : TS T D) {I : D → Prop} (wf : ts.WF I) (x : D
 
 /-- **C16_chain**: `x ∈ T` iff `T` lies on the detection path of `x` — the types containing a
 datum form exactly a chain from the root -/
-theorem C16_chain (ts : TS T D) {I : D → Prop} (wf : ts.WF I) (root : T) (hroot : ∀ t, IdPath ts root t)
-    (f : Nat) (hf : ts.h root < f) (x : D) (hI : I x) (hx : ts.contains root x = true) (t : T) :
+theorem C16_chain (ts : TS T D) {I : D → Prop} (wf : ts.WF I) (root : T)
+    (f : Nat) (hf : ts.h root < f) (x : D) (hI : I x) (hx : ts.contains root x = true) (t : T)
+    (hroot : IdPath ts root t) :
     ts.contains t x = true ↔ t ∈ (ptraverse ts.idSucc f root x).2 := by
   constructor
-  · intro hT; exact on_path_of_contains ts wf x hI t hT root (hroot t) f hf
+  · intro hT; exact on_path_of_contains ts wf x hI t hT root hroot f hf
   · intro hmem
     exact (detect_sound ts (fun n r hr hi => wf.idGuard n r hr hi) f root x hx).2.2.1 t hmem
 
